@@ -296,6 +296,8 @@ func VH_C13_hooked(kind, sk, withWhen int) {
 	}
 	e.loc.AddFact(e.ctx, "odd", core.Map{"rule": rule}) // refused or accepted: both are answers
 	e.rec.ran = nil
+	// the next requests come with a context of their own
+	e.ctx = core.NewContext("canary")
 	_, cond := e.loc.ProcessEvent(e.ctx, core.Map{"a": "1"})
 	vassert(cond == nil, "canary-after-op")
 	n := 0
